@@ -226,6 +226,30 @@ rpmRollingWindowSize: 1
 				time.Sleep(time.Duration(job.MetPeriodMs) * time.Millisecond)
 			}
 		}()
+		if job.Scenario == "sensorflap" {
+			// the temperature input disappears for 250 ms out of every 900 ms (driver reload, flaky bus) while TWO metric
+			// scrapers are active: the error paths of the sensor monitor, the curves and the collectors run concurrently
+			tin := filepath.Join(hw, "temp1_input")
+			go func() {
+				time.Sleep(1200*time.Millisecond + 7*time.Microsecond)
+				for {
+					os.Rename(tin, tin+".gone")
+					time.Sleep(250 * time.Millisecond)
+					os.Rename(tin+".gone", tin)
+					time.Sleep(650 * time.Millisecond)
+				}
+			}()
+			go func() {
+				time.Sleep(time.Duration(job.MetOffsetUs+29) * time.Microsecond)
+				for {
+					if _, err := prometheus.DefaultGatherer.Gather(); err != nil {
+						vxAppend(events, stamp()+" gather error: "+err.Error())
+					}
+					atomic.AddInt64(&nMet, 1)
+					time.Sleep(time.Duration(job.MetPeriodMs) * time.Millisecond)
+				}
+			}()
+		}
 		go func() {
 			time.Sleep(time.Duration(job.RunMs)*time.Millisecond + 91*time.Microsecond)
 			vxAppend(events, fmt.Sprintf("%s final SIGTERM; api requests %d, metric gathers %d", stamp(), atomic.LoadInt64(&nApi), atomic.LoadInt64(&nMet)))
@@ -480,7 +504,7 @@ func TestVX_C20(t *testing.T) {
 		offsets = []int{0, 37, 50003, 100011, 150029, 2400031, 3400027, 3500017, 3600023}
 		periods = [][2]int{{170, 230}, {1003, 517}, {53, 71}}
 	}
-	for _, sc := range []string{"regulate", "stall", "init", "nopwm", "nopwm-parallel", "window0"} {
+	for _, sc := range []string{"regulate", "stall", "sensorflap", "init", "nopwm", "nopwm-parallel", "window0"} {
 		for pi, per := range periods {
 			for ai, ao := range offsets {
 				for mi, mo := range offsets {
@@ -488,7 +512,7 @@ func TestVX_C20(t *testing.T) {
 						continue
 					}
 					run := 6500
-					if sc == "nopwm-parallel" || sc == "window0" {
+					if sc == "nopwm-parallel" || sc == "window0" || sc == "sensorflap" {
 						// the fans without PWM read-back start together with everything else; a short run is enough
 						if pi != 0 {
 							continue
